@@ -33,6 +33,9 @@ func c05Scenarios(tier string) []*Scenario {
 		if giveUp {
 			sc.Name += "|env=giveup"
 		}
+		if strings.Contains(opts, "fullduplex") {
+			sc.Name += "|env=fullduplex"
+		}
 		out = append(out, sc)
 	}
 	bdHandlers := [][2][]string{
@@ -99,6 +102,18 @@ func c05Scenarios(tier string) []*Scenario {
 			if tr == "http" {
 				add(tr, "", true, RPC{Kind: "bd", Client: []string{"S0", "S1", "S2", "C", "R*"}, Handler: h}, "")
 			}
+		}
+		// the handler ends the call (with an error, or just returns) before the client has half-closed, and the
+		// client goes on to receive without ever half-closing; over HTTP on a server in full-duplex mode (on
+		// an ordinary net/http server the reply to such a call waits for the end of the request, by design)
+		for _, h := range [][]string{{"r", "ret:st:5"}, {"ret:st:5"}, {"r", "s0", "ret:st:5"}, {"r", "ret:ok"}, {"r", "h:a", "t:b", "ret:st:5"}} {
+			o := ""
+			if tr == "http" {
+				o = "fullduplex"
+			}
+			add(tr, "", false, RPC{Kind: "bd", Client: []string{"S0", "R*", "S1", "C"}, Handler: h}, o)
+			add(tr, "", false, RPC{Kind: "bd", Client: []string{"S0", "H", "R*"}, Handler: h}, o)
+			add(tr, "", false, RPC{Kind: "cs", Client: []string{"S0", "R*", "S1"}, Handler: h}, o)
 		}
 		// CloseSend from two goroutines at once, also while a SendMsg is held back
 		add(tr, "", false, RPC{Kind: "bd", Client: []string{"S0", "C", "R*"}, Client2: []string{"C"}, Handler: []string{"r*", "s0", "ret:ok"}}, "misuse")
